@@ -1,6 +1,7 @@
 """C04 — back-ends reject what they cannot emulate instead of returning wrong results.
 
-Lean: EmuVerif.Props.C04 (576-cell feature table checked cell by cell by the kernel, lifted to
+Lean: EmuVerif.Props.C04 (576-cell feature table, x2 with the 'interaction matrix changes mid-run' axis,
+checked cell by cell by the kernel, lifted to
 every SequenceData by the abstraction lemma; whole-pipeline soundness; emu-sv rejects XY / any
 level count but 2; digital-basis sequences never emulated). Correspondence: EXHAUSTIVE — every cell
 of the table is realised by a concrete hand-built SequenceData + config and run through the real
@@ -30,8 +31,13 @@ REGISTRY = dict(
           "everything else raises (no result); emu-sv raises for XY, unknown interaction types and every level count "
           "but 2; create_impl returns the implementation of the requested solver; from the channel bases, only pure "
           "ground-rydberg / pure XY sequences are emulated, digital never. Kernel-checked counterexamples for the tree "
-          "before the two fixes. Tied to the code by exhaustive cell-by-cell runs of the real back-ends plus random "
-          "variations per cell."),
+          "before the two fixes. With the Hamiltonian kind recorded per time step (extra table axis: the interaction "
+          "matrix changes mid-run, i.e. an SLM mask ends inside the sequence and emu-mps rebuilds its MPO): every step of "
+          "a run that returns results uses the same, right Hamiltonian (run_kind_constant, runTable_sound; "
+          "counterexample for a rebuild that defaults to Rydberg). Tied to the code by exhaustive cell-by-cell runs of "
+          "the real back-ends plus random variations per cell; the operator family actually built and used at every "
+          "step is observed by wrapping the MPO factor classes / make_H / update_H / the emu-sv operator constructors, "
+          "and tiny dense references check the returned occupations."),
     note=("Trusted: Lean kernel + propext/Quot.sound; Mathlib tactics; hand-written Model.Config tied by correspondence "
           "only; that the operators built (RydbergHamiltonian, make_H) are Pulser's Hamiltonians is C01/C05/C06, not "
           "this property; Pulser's own basis report (interaction_type, dim) is a specification table validated against "
@@ -43,9 +49,12 @@ REGISTRY = dict(
 PROP_MODULE = "EmuVerif.Props.C04"
 AUDIT = "Audit/C04.lean"
 
-CELLS = list(itertools.product(("sv", "mps"), ("rydberg", "xy"), ("d2", "d3", "other"),
-                               ("none", "ok", "uniformWrong", "mixed"), ("tooFew", "oneGood", "enough"),
-                               ("tdvp", "dmrg"), (False, True)))
+# last coordinate: the interaction matrix changes inside the run (an SLM mask ends mid-sequence); it needs two
+# atoms, so the 192 combinations "fewer than two atoms + changing matrix" do not exist
+CELLS = [c for c in itertools.product(("sv", "mps"), ("rydberg", "xy"), ("d2", "d3", "other"),
+                                      ("none", "ok", "uniformWrong", "mixed"), ("tooFew", "oneGood", "enough"),
+                                      ("tdvp", "dmrg"), (False, True), (False, True))
+         if not (c[4] == "tooFew" and c[7])]
 
 
 def _ops_for(oc, dim, rng=None):
@@ -68,13 +77,14 @@ def _ops_for(oc, dim, rng=None):
 def cell_spec(cell, rng=None):
     """Concrete (data spec, config spec) in `cell`: the representative (`rng=None`, = `rep` of
     Proofs/Config.lean) or a random variation."""
-    b, ham, dc, oc, ac, s, cn = cell
+    b, ham, dc, oc, ac, s, cn, slm = cell
     hamn = "Rydberg" if ham == "rydberg" else "XY"
     if rng is None:
         dim = {"d2": 2, "d3": 3, "other": 4}[dc]
         n, bad, spe = {"tooFew": (1, [False], 0.0), "oneGood": (2, [True, False], 0.1),
                        "enough": (2, [False, False], 0.0)}[ac]
-        return (dict(ham=hamn, eig=L.eigenstates(hamn, dim), op_dims=_ops_for(oc, dim), n=n, bad=bad, spe=spe),
+        return (dict(ham=hamn, eig=L.eigenstates(hamn, dim), op_dims=_ops_for(oc, dim), n=n, bad=bad, spe=spe,
+                     slm=slm),
                 dict(backend=b, solver=s, noise={"relaxation_rate": 0.1} if cn else {}))
     dim = {"d2": 2, "d3": 3}.get(dc) or rng.choice([1, 4, 5])
     eig = L.eigenstates(hamn, dim)
@@ -100,9 +110,12 @@ def cell_spec(cell, rng=None):
                 bad[i] = True
             spe = 0.1
     noises = [z for z in L.NOISE_SPECS if z and L.try_noise_model(z) is not None]
-    obs = [["Occupation", None]] + ([["BitStrings", None]] if rng.random() < 0.3 else [])
+    # BitStrings only on 2-level bases: `MPS.sample` has its own rejection (dim > 2 with p_false_pos > 0 →
+    # NotImplementedError while the observable is computed), which is outside the modelled features
+    obs = [["Occupation", None]] + ([["BitStrings", None]] if dim == 2 and rng.random() < 0.3 else [])
+    nsteps = rng.choice([2, 3, 4])
     return (dict(ham=hamn, eig=eig, op_dims=_ops_for(oc, dim, rng), n=n, bad=bad, spe=spe,
-                 nsteps=rng.choice([2, 3]), numseed=rng.randint(1, 10 ** 9)),
+                 nsteps=nsteps, numseed=rng.randint(1, 10 ** 9), slm=slm, slm_end_step=rng.randint(1, nsteps - 1)),
             dict(backend=b, solver=s, noise=rng.choice(noises) if cn else {}, obs=obs,
                  precision=rng.choice([1e-5, 1e-8])))
 
@@ -116,10 +129,13 @@ def run_case(rep: Report, dspec, cspec, cell, lines, sink, origin):
     bad = L.oracle_run(cspec["backend"], data, cfg, out, info)
     if bad:
         rep.fail(bad[0], dict(kind="seq", data=dspec, cfg=cspec), klass=bad[1])
-    lines.append(L.seq_line(feat))
-    sink.append(("seq:" + origin, dict(data=dspec, cfg=cspec, cell=list(L.cell_of(feat)), exc=info.get("exc")), out))
-    lines.append(L.seq_line(feat, "asfound"))
+    lines.append(L.run_line(feat))
+    sink.append(("seq:" + origin, dict(data=dspec, cfg=cspec, cell=list(L.cell_of(feat)), exc=info.get("exc"),
+                                      steps=L.collapse(info.get("steps", []))), out))
+    lines.append(L.run_line(feat, variant="asfound"))
     sink.append(("asfound", None, out))
+    lines.append(L.run_line(feat, rebuild="default"))
+    sink.append(("rebuild-default", None, out))
     if cspec["backend"] == "mps":
         lines.append(L.impl_line(feat))
         sink.append(("impl", dict(data=dspec, cfg=cspec), L.impl_real(L.build_data(dspec), cfg)))
@@ -246,7 +262,7 @@ def check_sequences(rep: Report, lines, sink):
                         # prepared register; the run is judged by the `config.seq` line above only
                         rep.count("sequence_with_badly_prepared_atoms")
                         continue
-                for fixed in ("0", "1"):     # current tree / proposed repair of finding D20 (C33) in run()
+                for fixed in ("0", "1"):     # tree before / after the D22 fix (C33) in run()
                     lines.append(" ".join(["config.sequence", "repaired", fixed, b, bases, "1" if leak else "0",
                                            ",".join(L.kinds_of(L.noise_model(z))) or "-", s]))
                     sink.append(("sequence" if fixed == "0" else "sequence-fixed",
@@ -254,8 +270,52 @@ def check_sequences(rep: Report, lines, sink):
                 rep.hist("sequence_outcome", f"{bases}: {out}")
 
 
+def dense_specs(rng, n_random):
+    out = [dict(backend=b, ham=ham, n=n, slm=slm, nsteps=3, slm_end_step=1, numseed=7 + n)
+           for b, ham in (("mps", "XY"), ("mps", "Rydberg"), ("sv", "Rydberg")) for slm in (False, True) for n in (2, 3)]
+    for _ in range(n_random):
+        b, ham = rng.choice([("mps", "XY"), ("mps", "XY"), ("mps", "Rydberg"), ("sv", "Rydberg")])
+        nsteps = rng.choice([2, 3, 4])
+        out.append(dict(backend=b, ham=ham, n=rng.choice([2, 3]), slm=rng.random() < 0.7, nsteps=nsteps,
+                        slm_end_step=rng.randint(1, nsteps - 1), numseed=rng.randint(1, 10 ** 9)))
+    return out
+
+
+def dense_verdict(spec):
+    out, err, info, data, cfg = L.dense_real(spec)
+    bad = L.oracle_run(spec["backend"], data, cfg, out, info)
+    if bad and not (err is not None and not err <= L.DENSE_TOL):
+        return out, err, bad
+    if not out.startswith("emulate"):
+        return out, err, (f"{spec['backend']} raised for a supported 2-level {spec['ham']} sequence: "
+                          f"{info.get('exc')}", "rejects-supported-sequence")
+    if err is not None and not err <= L.DENSE_TOL:
+        return out, err, (f"{spec['backend']} occupations {[round(x, 6) for x in info['occupation']]} differ from the dense "
+                          f"{spec['ham']} reference {[round(x, 6) for x in info['reference']]} by {err:.3g} "
+                          f"(> {L.DENSE_TOL}); hamiltonians in use: {L.collapse(info.get('steps', []))}",
+                          "results-differ-from-dense-reference")
+    return out, err, None
+
+
+def check_dense(rep: Report, rng, n_random):
+    """Tiny dense references (2-3 atoms, 2-4 steps, SLM mask ending after a step): the returned
+    occupations must be those of the Hamiltonian Pulser defines, over the whole run."""
+    worst = 0.0
+    for spec in dense_specs(rng, n_random):
+        out, err, bad = dense_verdict(spec)
+        if bad:
+            rep.fail(bad[0], dict(kind="dense", spec=spec), klass=bad[1])
+        worst = max(worst, err or 0.0)
+        rep.case(key=("dense", L.jd(spec)), nontrivial=bool(spec["slm"]),
+                 sample=dict(kind="dense", spec=spec, outcome=out, max_abs_err=err))
+        rep.hist("dense_case", f"{spec['backend']} {spec['ham']} slm={spec['slm']}")
+    rep.extra["dense_reference_max_abs_err"] = worst
+    rep.extra["dense_reference_tolerance"] = L.DENSE_TOL
+
+
 def check(rep: Report, tier: str, seed: int) -> None:
-    rep.rule = ("exhaustive: all 576 cells (backend x ham type x {2,3,other} levels x {no, dim x dim, uniformly wrong, "
+    rep.rule = ("exhaustive: all 960 realisable cells of 576 x {interaction matrix constant, changes mid-run (SLM mask "
+                "ends after a step)} (backend x ham type x {2,3,other} levels x {no, dim x dim, uniformly wrong, "
                 "mixed} Lindblad operators x {<2 atoms, <=1 well prepared, enough} x solver x configured noise), each "
                 "realised by its representative SequenceData/config (2 atoms, 2 steps) on the real back-end; + random "
                 "variations inside randomly chosen cells (atom count 1-4, level count 1/4/5, operator counts/sizes/"
@@ -266,8 +326,11 @@ def check(rep: Report, tier: str, seed: int) -> None:
                 "(ground-rydberg, digital, both, XY) x noise model x back-end end to end. "
                 "non-trivial = every case (each is a distinct decision path); distinct = distinct driver lines")
     rep.assumptions = [
-        "emu-sv returning Results is read as 'emulated the 2-level Rydberg Hamiltonian' (its only operator family); "
-        "emu-mps's Hamiltonian is read off the arguments of make_H (recorded by a harness-side wrapper)",
+        "the Hamiltonian in use is observed, step by step, by harness-side wrappers: emu-mps = which MPO factor class "
+        "(Rydberg/XY, dim) make_H instantiated for the MPO that update_H is about to fill; emu-sv = its "
+        "RydbergHamiltonian/RydbergLindbladian constructions (its only operator family)",
+        "dense reference: matrix exponential per step of the Hamiltonian Pulser defines (phi = 0, 2 levels, noiseless); "
+        "tolerance 1e-6 on occupations (>= 1e4 x the clean-tree spread, << the 0.05-0.25 XY/Rydberg difference)",
         "Pulser's basis report (interaction_type, dim per channel-basis set, +1 with leakage) is a specification table "
         "(Model.Config.pulserBasis) validated against the installed pulser-core on every run",
         "sequences Pulser itself refuses (e.g. XY + relaxation) never reach the repository and are skipped (counted)",
@@ -286,16 +349,18 @@ def check(rep: Report, tier: str, seed: int) -> None:
         dspec, cspec = cell_spec(cell)
         run_case(rep, dspec, cspec, cell, lines, sink, "cell")
     rep.extra["cells_enumerated"] = len(CELLS)
-    nvar = 400 if quick else 576 * 12
+    rep.extra["cells_not_realisable"] = "192 (fewer than two atoms x changing interaction matrix)"
+    nvar = 500 if quick else len(CELLS) * 8
     for i in range(nvar):
         cell = CELLS[i % len(CELLS)] if not quick else rng.choice(CELLS)
         dspec, cspec = cell_spec(cell, rng)
         run_case(rep, dspec, cspec, cell, lines, sink, "variation")
     if not quick:       # reordering on: the permutation search must not change the decision
-        for cell in [c for c in CELLS if c[0] == "mps" and c[4] == "enough"][::6]:
+        for cell in [c for c in CELLS if c[0] == "mps" and c[4] == "enough"][::12]:
             dspec, cspec = cell_spec(cell, rng)
             cspec["reorder"] = True
             run_case(rep, dspec, cspec, cell, lines, sink, "variation-reorder")
+    check_dense(rep, rng, 24 if quick else 600)
     check_lind(rep, rng, 300 if quick else 20000, lines, sink)
     check_pipeline(rep, rng, 40 if quick else 2000, lines, sink)
     check_sequences(rep, lines, sink)
@@ -305,7 +370,7 @@ def check(rep: Report, tier: str, seed: int) -> None:
     except LeanError as e:
         rep.broke("driver: " + str(e)[-800:])
         model = [None] * len(lines)
-    dis, asfound_hits = 0, 0
+    dis, asfound_hits, rebuild_hits = 0, 0, 0
     prev = pending = None
     d20 = {"asFound": 0, "repaired": 0}
     for line, (kind, spec, out), mo in zip(lines, sink, model):
@@ -313,11 +378,16 @@ def check(rep: Report, tier: str, seed: int) -> None:
             pending = mo
             continue
         if kind == "sequence-fixed":
-            # the real run() must match the current-tree model or the one with D20 repaired in run()
+            # the real run() must match the model before or after the D22 fix in run()
             if mo is not None and pending != mo and out in (pending, mo):
                 d20[("asFound" if out == pending else "repaired")] += 1
             mo = pending if out == pending else mo
             kind = "sequence"
+        if kind == "rebuild-default":
+            pline, (pk, pspec, pout), pmo = prev
+            if pmo is not None and pmo != pout and mo == pout:
+                rebuild_hits += 1
+            continue
         if kind == "asfound":
             # variant resolution: does the real code behave like the tree *before* the fixes here?
             pline, (pk, pspec, pout), pmo = prev
@@ -334,6 +404,11 @@ def check(rep: Report, tier: str, seed: int) -> None:
     rep.extra["correspondence_disagreements"] = dis
     rep.extra["run_dmrg_effective_noise_check_variant_matches"] = d20
     rep.extra["cases_matching_the_pre_fix_variant_only"] = asfound_hits
+    rep.extra["cases_matching_the_default_rydberg_rebuild_variant_only"] = rebuild_hits
+    if rebuild_hits:
+        rep.broke(f"{rebuild_hits} case(s) behave like Rebuild.defaultRydberg (the MPO rebuilt at the end of an SLM "
+                  "mask is a Rydberg one whatever the basis), for which Props/C04 proves "
+                  "run_kind_defaultRydberg_counterexample")
     if asfound_hits:
         rep.broke(f"{asfound_hits} case(s) behave like Variant.asFound (the tree before the emu-sv basis guard / "
                   "create_impl solver-first fixes), for which Props/C04 proves counterexamples")
@@ -352,7 +427,9 @@ def search(rep: Report, seed: int, n: int) -> None:
         run_case(rep, dspec, cspec, cell, lines, sink, "search")
         if rep.failing:
             return
-    check_pipeline(rep, rng, n // 10, lines, sink, exhaustive_dims=(2, 3, 4))
+    check_dense(rep, rng, n // 20)
+    if not rep.failing:
+        check_pipeline(rep, rng, n // 10, lines, sink, exhaustive_dims=(2, 3, 4))
     if not rep.failing:
         check_sequences(rep, lines, sink)
     rep.extra["search_cases"] = n
@@ -364,7 +441,10 @@ def replay(rep: Report, path: str) -> int:
     bad = 0
     for f in data.get("failing_inputs", []):
         d = f["data"]
-        if d["kind"] == "seq":
+        if d["kind"] == "dense":
+            out, err, bad = dense_verdict(d["spec"])
+            msg = bad[0] if bad else None
+        elif d["kind"] == "seq":
             dd, cc = L.build_data(d["data"]), L.build_config(d["cfg"])
             out, info = L.run_real(d["cfg"]["backend"], dd, cc)
             msg = L.oracle_run(d["cfg"]["backend"], dd, cc, out, info)
